@@ -107,6 +107,34 @@ func runCapped(c *vm.Ctx) {
 				_ = m.String()
 				return nil
 			}})
+		// text components nested through the arguments of a translation ("with"): every level is a component of its own
+		// inside the argument list of the one above (28 bytes a level; 70000 levels fit into a 2 MiB packet)
+		wdepth := min(depth, 70000)
+		var with []byte
+		with = append(with, refnbt.Compound)
+		for i := 0; i < wdepth; i++ {
+			with = append(with, refnbt.String, 0, 9)
+			with = append(with, "translate"...)
+			with = append(with, 0, 2, '%', 's')
+			with = append(with, refnbt.List, 0, 4)
+			with = append(with, "with"...)
+			with = append(with, refnbt.Compound, 0, 0, 0, 1)
+		}
+		with = append(with, refnbt.String, 0, 4)
+		with = append(with, "text"...)
+		with = append(with, 0, 1, 'x')
+		with = append(with, make([]byte, wdepth+1)...)
+		cases = append(cases, vm.IsoCase{Name: fmt.Sprintf("chat.Message nested %d levels through with (%d bytes)", wdepth, len(with)),
+			Class: fmt.Sprintf("deep-nesting/chat.Message.with.%d", wdepth), Input: with,
+			Run: func() error {
+				var m chat.Message
+				if err := (pk.Packet{Data: with}).Scan(&m); err != nil {
+					return err
+				}
+				_ = m.ClearString()
+				_ = m.String()
+				return nil
+			}})
 		// block entity data (kept as RawMessage: the value-skipping path)
 		be := wbuf(pk.UnsignedByte(0), pk.Short(1), pk.VarInt(1))
 		be = append(be, refnbt.Compound)
